@@ -55,6 +55,48 @@ def mon_order(w):
             w.flag("nothing-after-closed", "c%d:%s" % (c.ci, late[0][0]), "client %d: %r after closed" % (c.ci, late))
 
 
+GET_RANK = {"get:code": 0, "get:key": 1, "get:verifier": 2, "get:versions": 3, "get:message": 3}
+
+
+def mon_get_order(w):
+    """explicit get_*() calls: if get_A() was called before get_B() and A causally precedes B, A's Deferred fires first"""
+    for c in w.clients:
+        slots = [sl for sl in c.app.extra if isinstance(sl, list) and sl[0] in GET_RANK]
+        fired = []
+        for k, v in c.app.obs:
+            if k.startswith("got:") or k.startswith("goterr:"):
+                fired.append(v[0])          # slot number
+        for pos, n in enumerate(fired):
+            b = [sl for sl in slots if sl[1] == n]
+            if not b or b[0][2] != "ok":
+                continue
+            b = b[0]
+            for a in slots:
+                if a[1] < b[1] and GET_RANK[a[0]] < GET_RANK[b[0]] and a[4] == "early" and a[1] not in fired[:pos]:
+                    w.flag("get-order", "c%d:%s-before-%s" % (c.ci, b[0], a[0]),
+                           "client %d: %s (called later) fired before %s (called earlier, causally first); firing order %r" % (
+                               c.ci, b[0], a[0], fired))
+
+
+OBSERVER = {"versions": "_version_observer", "verifier": "_verifier_observer", "key": "_key_observer", "code": "_code_observer"}
+
+
+def get_guard(w, c, step):
+    if step[0] == "get_fired":
+        from wormhole.observer import NoResult
+        return getattr(c.w, OBSERVER[step[1]])._result is not NoResult
+    if step[0] == "get_late":
+        return c.app.closed > 0
+    return True
+
+
+def get_hook(w, c, step):
+    if step[0] == "get_fired":
+        w._get(c, step[1])
+        return True
+    return False
+
+
 def fin_gets(w):
     out = []
     for c in w.clients:
@@ -94,9 +136,13 @@ def cfg(mode="deferred", n0=1, n1=2, fine=(0,), drops=(0, 0), reorder=0, dup=0, 
     return dict(clients=[c0, dict(threads=t1, drops=drops[1], mode=mode)],
                 explored=explored or ("down", "up", "api", "connect", "drop", "reorder", "dup", "stopfin"),
                 coarse=[i for i in (0, 1) if i not in fine], reorder=reorder, dup=dup,
-                monitors=[mon_order], final_monitors=[fin_gets])
+                monitors=[mon_order, mon_get_order], final_monitors=[fin_gets], step_guard=get_guard, api_hook=get_hook)
 
 
+# get_verifier() early; get_versions() / get_unverified_key() only once the event has happened inside the library, i.e. possibly
+# while the earlier Deferreds' callbacks are still waiting in the eventual queue
+G3 = [[("get", "verifier")], [("get_fired", "versions")]]
+G4 = [[("get", "code"), ("get_fired", "key")]]
 G1 = [[("get", "verifier"), ("get", "message")], [("get", "message"), ("get_late", "message"), ("get_late", "versions")]]
 G2 = [[("get", "code"), ("get", "key"), ("get_late", "code")], [("get", "message"), ("get", "message"), ("get", "message")]]
 TURN = ("down", "up", "api", "connect", "drop", "turn", "stopfin")
@@ -110,6 +156,8 @@ def scenarios(tier):
     S.append(mk("deferred-gets1-fine0", cfg("deferred", 0, 1 if q else 2, (0,), gets=G1), max_depth=100, max_states=500000))
     S.append(mk("deferred-gets2a-fine0", cfg("deferred", 0, 1, (0,), gets=G2[:1]), max_depth=100, max_states=500000))
     S.append(mk("deferred-gets2b-fine0", cfg("deferred", 0, 2, (0,), gets=G2[1:]), max_depth=100, max_states=500000))
+    S.append(mk("deferred-gets3-turns", cfg("deferred", 0, 0, (0,), gets=G3, explored=TURN, close0=False), max_depth=120, max_states=400000))
+    S.append(mk("deferred-gets4-turns", cfg("deferred", 0, 0, (0,), gets=G4, explored=TURN, close0=False), max_depth=120, max_states=400000))
     S.append(mk("deferred-turns-dev2", cfg("deferred", 1, 2, (0, 1), drops=(1, 1), explored=TURN, peer_close=True), dev_bound=2, max_depth=250))
     S.append(mk("delegate-dev2-faults", cfg("delegate", 1, 2, (0, 1), drops=(1, 1), reorder=1, dup=1, peer_close=True), dev_bound=2, max_depth=250))
     if not q:
